@@ -461,7 +461,8 @@ class EnumBitmap4(Sensor):
         self._labels: dict[int, str] = labels
 
     def read_value(self, data: ProtocolResponse) -> Any:
-        raise NotImplementedError()
+        bits = read_bytes4_signed(data)
+        return decode_bitmap(bits if bits != -1 else 0, self._labels)
 
     def read(self, data: ProtocolResponse):
         bits = read_bytes4_signed(data, self.offset)
